@@ -23,6 +23,7 @@ EstimateConforms == Rec.type = "estimate" =>
 GaugeConforms == Rec.type = "gauge" =>
    /\ Rec.status = "ok"
    /\ Rec.traj_same /\ Rec.attach_same /\ Rec.event_same      \* re-centring changes no trajectory, attachment or event likelihood
+                                                                \* (event_same also covers hazard / log-survival, the ingredients of the predicted event part)
    /\ Rec.zero_mean                                             \* and makes the log-accelerations zero-mean
    /\ Rec.orthogonal                                            \* every row of the mixing matrix is orthogonal to progression in the metric
                                                                 \* (metric and direction: the terms msq / dir evaluated by the driver)
